@@ -35,7 +35,7 @@ ASSUMPTIONS = ["metamorphic relation only (no reference solver needed to raise t
 
 
 def generate(rnd, tier):
-    keys = ["QF_IDL", "QF_RDL", "QF_UFIDL", "QF_UFRDL"] if rnd.random() < 0.35 else None
+    keys = ["QF_IDL", "QF_RDL", "QF_UFIDL", "QF_UFRDL"] if rnd.random() < (0.35 if tier == "quick" else 0.5) else None
     script, sig, tg = gen.gen_script(rnd, tier, logic_keys=keys, engines=False, tracking=set(), incremental=True, queries=False,
                                      named=0.3 if rnd.random() < 0.3 else 0.0)
     script["options"] = []
